@@ -25,8 +25,8 @@ EXAMPLE_AUTH = ['examples/multisig-smart-account MultisigContract::__check_auth'
 AUTH_COMMON = ('registry built directly in storage: CAP rule slots with fixed distinct ids (opaque to the code under test; C20 quantifies over all ids), each unlisted / listed '
                'under the context\'s own type / listed under Default, Meta{name 1-2 bytes, valid_until any Option<u32>}, Signers(id) and '
                'Policies(id) present or absent, duplicates allowed; signers Delegated(any of 5 addresses) or External(any of 5 verifiers, '
-               'key of 1-2 arbitrary bytes); signature data 1-2 arbitrary bytes; payload any 32 bytes; context any of the three variants '
-               '(contract any of 5 addresses / any wasm hash, any function name, 0..CAP arbitrary arguments); ledger full u32; '
+               'key of 1-2 arbitrary bytes); signature data 1-2 arbitrary bytes; payload any 32 bytes; context of the variant named per harness '
+               '(contract any of 5 addresses / any wasm hash, any function name, 0..CAP arbitrary arguments; the VARIANT is fixed per harness, see below); ledger full u32; '
                'every verifier/policy answer arbitrary or failing; require_auth_for_args grants arbitrary per address; unwind 98')
 SEL_FNS = [SA + f for f in ('get_validated_context', 'get_valid_context_rules', 'get_authenticated_signers', 'can_enforce_all_policies',
                             'get_context_rule')] + ['policies::PolicyClient::can_enforce']
@@ -41,34 +41,44 @@ B_ONE = ('CAP=2: whole check, 1 context, ONE listed rule (Default / own type) + 
 B_TWO = 'CAP=2: whole check, 1 context, an own-type rule and a Default rule, <= 2 signers and <= 1 policy per rule, 0..2 signatures; ' + AUTH_COMMON
 B_2CTX = ('CAP=2: whole check, batch of 2 contexts (same or different rule types, own id list each), one Default rule + one unlisted rule, <= 2 signers and '
           '<= 1 policy per rule, 0..2 signatures; ' + AUTH_COMMON)
+CALLCTX = '; context: contract call (Context::Contract)'
+B_SEL_ANY = B_SEL.replace('in the concrete list shape named by the harness (older slot, newer slot)', 'of symbolic kinds (unlisted / own type / Default)')
 PINNED = ('; all foreign calls pinned to return (boolean answers arbitrary), verifier answers true, delegated signers grant (payload,), the reference finds a '
           'satisfied rule; sequence <= u32::MAX - 40 days (TTL extension representable)')
 # CBMC: ArgBuf has 96 words; keep arrays up to 128 elements field-sensitive (default 64) -- faster and far less memory
 CB = '--max-field-sensitivity-array-size 128'
 
 
+# measured (16 busy cores): 2-6 min per harness, the whole-check harnesses 10-12 min
+TO = {'quick': 2400, 'thorough': 5400}
+
+
 def A(h, fns, bounds, **kw):
-    return K('smart_account::' + h, profile=kw.pop('profile', 'sa_auth'), functions=fns, bounds=bounds, **kw)
+    return K('smart_account::' + h, profile=kw.pop('profile', 'sa_auth'), functions=fns, bounds=bounds, cbmc_args=CB, timeout=TO, **kw)
 
 
 C03 = [
     A('authenticate_signatures', [SA + 'authenticate', 'verifiers::VerifierClient::verify'], B_AUTH),
     A('authenticate_signatures_accepts', [SA + 'authenticate', 'verifiers::VerifierClient::verify'], B_AUTH + PINNED, must_succeed=True),
-    A('select_own_own', SEL_FNS, B_SEL),
-    A('select_default_default', SEL_FNS, B_SEL),
-    A('select_own_default', SEL_FNS, B_SEL),
-    A('select_default_own', SEL_FNS, B_SEL),
-    A('select_any_accepts', SEL_FNS, B_SEL.replace('in the concrete list shape named by the harness (older slot, newer slot)', 'of symbolic kinds (unlisted / own type / Default)') + PINNED, must_succeed=True),
-    A('check_auth_one_default_rule', AUTH_FNS + EXAMPLE_AUTH, B_ONE + '; through the example account\'s __check_auth'),
-    A('check_auth_one_own_rule', AUTH_FNS, B_ONE),
-    A('check_auth_one_rule_accepts', AUTH_FNS, B_ONE + PINNED, must_succeed=True),
-    A('select_own_own_2pol', SEL_FNS, B_SEL2, tier='thorough'),
-    A('select_own_default_2pol', SEL_FNS, B_SEL2, tier='thorough'),
-    A('select_default_default_2pol', SEL_FNS, B_SEL2, tier='thorough'),
-    A('check_auth_own_and_default_rule', AUTH_FNS, B_TWO, tier='thorough'),
-    A('check_auth_2ctx_one_default_rule', AUTH_FNS, B_2CTX, tier='thorough'),
-    A('select_own_own_default', SEL_FNS, B_SEL3, tier='thorough', profile='sa_auth3'),
-    A('select_own_default_default', SEL_FNS, B_SEL3, tier='thorough', profile='sa_auth3'),
+    A('select_own_own', SEL_FNS, B_SEL + CALLCTX),
+    A('select_default_default', SEL_FNS, B_SEL + CALLCTX, tier='thorough'),
+    A('select_own_default', SEL_FNS, B_SEL + CALLCTX),
+    A('select_default_own', SEL_FNS, B_SEL + CALLCTX),
+    A('select_create_own_default', SEL_FNS, B_SEL + '; context: CreateContractHostFn', tier='thorough'),
+    A('select_create_ctor_own_own', SEL_FNS, B_SEL + '; context: CreateContractWithCtorHostFn', tier='thorough'),
+    A('select_any_accepts', SEL_FNS, B_SEL_ANY + CALLCTX + PINNED, must_succeed=True),
+    A('select_create_any_accepts', SEL_FNS, B_SEL_ANY + '; context: CreateContractHostFn' + PINNED, must_succeed=True, tier='thorough'),
+    A('check_auth_one_default_rule', AUTH_FNS + EXAMPLE_AUTH, B_ONE + CALLCTX + '; through the example account\'s __check_auth'),
+    A('check_auth_one_own_rule', AUTH_FNS, B_ONE + '; context: CreateContractHostFn', tier='thorough'),
+    A('check_auth_one_rule_accepts', AUTH_FNS, B_ONE + '; the listed rule Default or own type; context: CreateContractWithCtorHostFn' + PINNED, must_succeed=True),
+    A('select_own_own_2pol', SEL_FNS, B_SEL2 + CALLCTX, tier='thorough'),
+    A('select_own_default_2pol', SEL_FNS, B_SEL2 + CALLCTX, tier='thorough'),
+    A('select_default_default_2pol', SEL_FNS, B_SEL2 + '; context: CreateContractWithCtorHostFn', tier='thorough'),
+    A('check_auth_own_and_default_rule', AUTH_FNS, B_TWO + CALLCTX, tier='thorough'),
+    A('check_auth_2ctx_one_default_rule', AUTH_FNS, B_2CTX + '; both contexts contract calls (same or different contract)', tier='thorough'),
+    A('check_auth_2ctx_mixed', AUTH_FNS, B_2CTX.replace('one Default rule + one unlisted rule', 'an own-type rule of the first context + a Default rule') + '; a contract call and a contract creation', tier='thorough'),
+    A('select_own_own_default', SEL_FNS, B_SEL3 + CALLCTX, tier='thorough', profile='sa_auth3'),
+    A('select_own_default_default', SEL_FNS, B_SEL3 + CALLCTX, tier='thorough', profile='sa_auth3'),
 ]
 
 RULE_FNS = [SA + f for f in ('get_context_rule', 'compute_fingerprint', 'validate_and_set_fingerprint', 'remove_fingerprint',
@@ -82,7 +92,8 @@ R_COMMON = ('CAP=3; one inductive step from an arbitrary stored state: rule id f
 
 
 def R(h, fns, bounds, **kw):
-    return K('context_rules::' + h, profile='sa_rules', functions=RULE_FNS + [SA + f for f in fns] + [VIA + fns[0]], bounds=bounds, **kw)
+    return K('context_rules::' + h, profile='sa_rules', functions=RULE_FNS + [SA + f for f in fns] + [VIA + fns[0]], bounds=bounds,
+             timeout={'quick': 1800, 'thorough': 3600}, **kw)
 
 
 ADD_B = ('CAP=3; arbitrary NextId / Count (present or absent, full u32), the id list of the rule\'s type with 0..2 ids below NextId, whatever is '
